@@ -45,15 +45,23 @@ def run(chk: Check, model):
     chk.used(fi.qualname)
     ret = r.ret
     split = T.mk_call("jax.random.split", [S("self.rng"), T.const(2)])
-    ok = ret[0] == "tuple" and len(ret[1]) == 2
+    def _leaves(t):
+        if t[0] == "ite":
+            return _leaves(t[2]) + _leaves(t[3])
+        return [t]
+    cases = _leaves(ret)  # every way sample() can return (e.g. a shortcut for shape=None) must obey the same rules
+    ok = all(c[0] == "tuple" and len(c[1]) == 2 for c in cases)
     if ok:
-        new, smp = ret[1]
-        chk.add("C15.rng", "new state carries the first half of the split", new == T.mk_replace(S("self"), (("rng", T.mk_index(split, T.ZERO)),)), f"sample returns state {T.show(new)[:120]}", chk.loc(fi))
-        ok2 = smp[0] == "call" and T.call_name(smp) == "jax.numpy.clip" and len(smp[2]) == 3 and T.const_value(smp[2][1]) == 0 and smp[2][2] == T.NONE
-        chk.add("C15.nonneg", "StaticDist.sample clips at 0", ok2, f"samples = {T.show(smp)[:160]}, expected jnp.clip(samples, 0.0, None)", chk.loc(fi))
-        inner = smp[2][0] if ok2 else smp
-        ok3 = inner[0] == "call" and T.call_name(inner) == "self.dist.sample" and dict(inner[3]).get("seed") == T.mk_index(split, T.ONE)
-        chk.add("C15.rng", "sampler seeded with the second half", ok3, f"the distribution is sampled with {T.show(inner)[:160]}, expected seed = split(self.rng, 2)[1]", chk.loc(fi))
+        news = [c[1][0] for c in cases]
+        smps = [c[1][1] for c in cases]
+        bad_new = [n for n in news if n != T.mk_replace(S("self"), (("rng", T.mk_index(split, T.ZERO)),))]
+        chk.add("C15.rng", "new state carries the first half of the split", not bad_new, f"sample returns state {T.show((bad_new or news)[0])[:120]}", chk.loc(fi))
+        clipped = [smp[0] == "call" and T.call_name(smp) == "jax.numpy.clip" and len(smp[2]) == 3 and T.const_value(smp[2][1]) == 0 and smp[2][2] == T.NONE for smp in smps]
+        bad = [smp for smp, c in zip(smps, clipped) if not c]
+        chk.add("C15.nonneg", "StaticDist.sample clips at 0", not bad, f"samples = {T.show((bad or smps)[0])[:160]}, expected jnp.clip(samples, 0.0, None) on every return path", chk.loc(fi))
+        inners = [smp[2][0] if c else smp for smp, c in zip(smps, clipped)]
+        bad_i = [i for i in inners if not (i[0] == "call" and T.call_name(i) == "self.dist.sample" and dict(i[3]).get("seed") == T.mk_index(split, T.ONE))]
+        chk.add("C15.rng", "sampler seeded with the second half", not bad_i, f"the distribution is sampled with {T.show((bad_i or inners)[0])[:160]}, expected seed = split(self.rng, 2)[1]", chk.loc(fi))
         uses = [e for e in r.events if e.kind == "call" and S("self.rng") in (list(e.args) + [v for _, v in e.kwargs])]
         chk.add("C15.rng", "stored key consumed exactly once (by the split)", len(uses) == 1 and uses[0].name == "jax.random.split", f"self.rng is used by {[u.name for u in uses]}", chk.loc(fi))
     else:
@@ -96,7 +104,12 @@ def run(chk: Check, model):
     chk.add("C15.quantile", "Normal: ndtri(q) * scale + loc for every q", v_n == want, f"Normal quantile = {T.show(v_n)[:200]}, expected ndtri(q) * scale + loc (any clamp of q breaks agreement with the CDF)", chk.loc(fi))
     v_m = T.assume(T.assume(T.assume(ret, det, False), nrm, False), mix, True)
     mq = [x for x in T.walk(v_m) if x[0] == "call" and T.call_name(x) == "rex.utils.mixture_distribution_quantiles"]
-    ok = len(mq) == 1 and dict(mq[0][3]).get("dist") == S("self.dist") and mentions(dict(mq[0][3]).get("probs", T.NONE), "q") if mq else False
+
+    def _paths(t):
+        return _paths(t[2]) + _paths(t[3]) if t[0] == "ite" else [t]
+    # every way the mixture branch can return goes through the grid routine (no closed-form shortcut for "almost one component")
+    all_grid = all(any(x[0] == "call" and T.call_name(x) == "rex.utils.mixture_distribution_quantiles" for x in T.walk(pth)) for pth in _paths(v_m))
+    ok = all_grid and len(mq) == 1 and dict(mq[0][3]).get("dist") == S("self.dist") and mentions(dict(mq[0][3]).get("probs", T.NONE), "q") if mq else False
     if ok:
         kw = dict(mq[0][3])
         lo, hi = kw.get("grid_min", T.NONE), kw.get("grid_max", T.NONE)
@@ -235,6 +248,23 @@ def run(chk: Check, model):
             base = base[1]
         chk.add("C15.estimator", "scales are exp(log scale) (positive)", base[0] == "call" and T.call_name(base) == "jax.numpy.exp" and mentions(base, "_rescale"), f"component scales = {T.show(scale)[:120]}", chk.loc(fi))
         loc = dict(comp[3]).get("loc", T.NONE) if comp[0] == "call" else T.NONE
+
+        def _chain(t):
+            ch = []
+            while t[0] in ("index", "slice") and not (t[0] == "index" and t[1][0] == "call" and T.call_name(t[1]) == "self._rescale"):
+                ch.append((t[0],) + tuple(t[2:]))
+                t = t[1]
+            return t, ch
+        wbase, wch = _chain(probs[2][0]) if probs[0] == "call" and probs[2] else (T.NONE, None)
+        lbase, lch = _chain(loc)
+        sbase, sch = _chain(scale)
+        resc = [x for x in T.walk(v) if x[0] == "call" and T.call_name(x) == "self._rescale"]
+        rs = resc[0] if resc else T.NONE
+        roles_ok = bool(resc) and lbase == T.mk_index(rs, T.const(2)) and sbase == T.mk_call("jax.numpy.exp", [T.mk_index(rs, T.const(3))]) \
+            and wbase[0] == "call" and T.call_name(wbase).endswith("normalize_weights") and wbase[2] == (T.mk_call("jax.numpy.exp", [T.mk_index(rs, T.ZERO)]),)
+        chk.add("C15.estimator", "weights, means and scales are sorted and pruned together", roles_ok and wch == lch == sch and bool(wch),
+                f"selection applied to weights {[T.show(('index', S('w')) + c[1:])[:60] if c[0] == 'index' else 'slice' for c in (wch or [])]}, means {len(lch)} step(s), scales {len(sch)} step(s): every component "
+                "parameter must go through the same argsort / pruning, or components get another component's scale", chk.loc(fi))
         chk.add("C15.estimator", "means and scales come from the rescaled parameters", mentions(loc, "_rescale") and T.call_name(comp) == "distrax.Normal", f"component means = {T.show(loc)[:120]}", chk.loc(fi))
     else:
         chk.unknown("C15.estimator", "mixture export", f"non-deterministic export = {T.show(v)[:160]}", chk.loc(fi))
